@@ -27,6 +27,8 @@ type Obligation struct {
 	Res    SolverResult
 	// ExpectFail marks vacuity probes: the obligation must be refuted.
 	ExpectFail bool
+	// Info marks informational probes that never fail a check.
+	Info bool
 }
 
 // Engine holds the loaded program and all contracts.
@@ -74,6 +76,8 @@ type Unit struct {
 	LemmasUsed map[string]bool
 	axCache    map[*Axiom]axEntry
 	ghostTy    map[string]types.Type
+	events     map[int]havocEvent
+	topFrame   *Frame
 	cellFns    map[*Cell]Val
 }
 
@@ -94,6 +98,7 @@ type Frame struct {
 	atSpecs map[string][]*AtSpec
 	curLoop []*loopInfo
 	siteOrd map[string]map[ssa.Instruction]int
+	lastCallResult *Val
 }
 
 type retState struct {
